@@ -128,3 +128,65 @@ Section Unary.
 End Unary.
 Arguments ustate : clear implicits.
 Arguments uop : clear implicits.
+
+(* ---- write failures: a program in which every call comes with the outcome of
+   its transport write (wok; ignored by calls that do not write). What reaches
+   the transport's peer are the envelopes whose write SUCCEEDED. ---- *)
+Section Faults.
+  Context {MD P ST : Type}.
+
+  Fixpoint sdelivered (s : sstate MD) (ops : list (sop MD P ST * bool)) : list (wenv MD P ST) :=
+    match ops with
+    | [] => []
+    | (o, wok) :: rest =>
+        let '(s', e, _) := sstep s o wok in
+        (match e with Some env => if wok then [env] else [] | None => [] end) ++ sdelivered s' rest
+    end.
+
+  Fixpoint sresultsw (s : sstate MD) (ops : list (sop MD P ST * bool)) : list sres :=
+    match ops with
+    | [] => []
+    | (o, wok) :: rest => let '(s', _, r) := sstep s o wok in r :: sresultsw s' rest
+    end.
+
+  Fixpoint srunw (s : sstate MD) (ops : list (sop MD P ST * bool)) : sstate MD :=
+    match ops with
+    | [] => s
+    | (o, wok) :: rest => srunw (fst (fst (sstep s o wok))) rest
+    end.
+
+  (* header maps the object RETAINS: accepted by SetHeader, or passed to a
+     SendHeader that was not refused (whether or not its write succeeded: a failed
+     SendHeader leaves its map among the pending headers) *)
+  Fixpoint retained_hdrs (s : sstate MD) (ops : list (sop MD P ST * bool)) : list MD :=
+    match ops with
+    | [] => []
+    | (o, wok) :: rest =>
+        let s' := fst (fst (sstep s o wok)) in
+        match o with
+        | SetHeader md | SendHeader md => if hsent s then retained_hdrs s' rest else md :: retained_hdrs s' rest
+        | _ => retained_hdrs s' rest
+        end
+    end.
+End Faults.
+
+(* the unary collector: the maps a program's accepted calls passed, in order *)
+Section UnaryAccepted.
+  Context {MD : Type}.
+  Fixpoint uaccepted_h (s : ustate MD) (ops : list (uop MD)) : list MD :=
+    match ops with
+    | [] => []
+    | o :: rest =>
+        let s' := fst (ustep s o) in
+        match o with
+        | USetHeader md | USendHeader md => if uhsent s then uaccepted_h s' rest else md :: uaccepted_h s' rest
+        | USetTrailer _ => uaccepted_h s' rest
+        end
+    end.
+  Fixpoint uaccepted_t (ops : list (uop MD)) : list MD :=
+    match ops with
+    | [] => []
+    | USetTrailer md :: rest => md :: uaccepted_t rest
+    | _ :: rest => uaccepted_t rest
+    end.
+End UnaryAccepted.
